@@ -372,8 +372,20 @@ def resolve_at(fnode, e, line=None, depth=0):
         return e
     line = getattr(e, "lineno", 0) if line is None else line
     best = None
+    # blocks (statement lists) the read sits in: a binding in one of them, above the read, is on every path to it
+    enclosing = []
+    cur = e
+    par = getattr(cur, "_parent", None)
+    while par is not None and cur is not fnode:
+        for fld in ("body", "orelse", "finalbody"):
+            blk = getattr(par, fld, None)
+            if isinstance(blk, list) and any(cur is x for x in blk):
+                enclosing.append(blk)
+        cur, par = par, getattr(par, "_parent", None)
     for v, path, st in assignments(fnode, into_nested=False).get(e.id, []):
-        if path is not None or isinstance(v, ast.AugAssign) or getattr(st, "_parent", None) is not fnode:
+        if path is not None or isinstance(v, ast.AugAssign):
+            continue
+        if getattr(st, "_parent", None) is not fnode and not any(any(st is x for x in blk) for blk in enclosing):
             continue
         if st.lineno < line and (best is None or st.lineno > best[1]):
             best = (v, st.lineno)
